@@ -7,6 +7,7 @@ import (
 	"fmt"
 	"os"
 	"path/filepath"
+	"slices"
 	"sort"
 	"strings"
 	"time"
@@ -32,6 +33,10 @@ func scenarios(tier string) []svc.Scenario {
 		{Name: "converter-requeue-then-extension", Converter: true, Program: []string{"import:P1", "addtag:tag/p=cport:1", "converters:tag/p=conv", "import:P2", "import:P3"}},
 		{Name: "converter", Converter: true, Program: []string{"import:P1", "addtag:tag/p=cport:1", "converters:tag/p=conv", "import:P3", "converters:tag/p="}},
 		// two tags wait for evaluation at the same time: which one the service takes first is an explored choice
+		// reference chains of depth two: an edit of the root (marks, query) and an import that changes the root's answer
+		// must reach the tag that uses the root only through another tag
+		{Name: "mark-reference-chain", Program: []string{"import:P1+P2", "addtag:mark/m=id:0", "addtag:tag/b=mark:m", "addtag:tag/c=-tag:b", "markadd:mark/m=1", "markdel:mark/m=0"}},
+		{Name: "data-reference-chain", Program: []string{"import:P1", "addtag:tag/d=cdata:foo3", "addtag:tag/b=tag:d", "addtag:tag/c=-tag:b", "import:P3", "updtag:tag/d=cdata:bar"}},
 		{Name: "two-tags", Program: []string{"addtag:tag/p=cport:1", "addtag:tag/d=cdata:foo3", "import:P1", "import:P3"}},
 	}
 	if tier == "thorough" {
@@ -60,7 +65,7 @@ func scenarios(tier string) []svc.Scenario {
 
 // Run explores all scenarios; prop selects the exit code.
 func Run(prop, tier string) int {
-	budget := 110 * time.Second
+	budget := 150 * time.Second
 	var cap int64 = 1500
 	if tier == "thorough" {
 		budget = 14 * time.Minute
@@ -99,7 +104,7 @@ func Run(prop, tier string) int {
 			complete = false
 			caps = append(caps, r.name+": "+r.st.CapHit)
 		}
-		perScenario[r.name] = map[string]any{"states": r.st.States, "transitions": r.st.Transitions, "max_depth": r.st.MaxDepth, "tag_pick_points": r.st.PickPoints, "quiescent_outcomes": len(r.st.Quiescent), "complete": r.st.Complete}
+		perScenario[r.name] = map[string]any{"states": r.st.States, "transitions": r.st.Transitions, "max_depth": r.st.MaxDepth, "tag_pick_points": r.st.PickPoints, "merge_deliveries": r.st.MergeDeliveries, "quiescent_outcomes": len(r.st.Quiescent), "complete": r.st.Complete}
 		for _, s := range r.st.Samples {
 			if len(samples) < 10 {
 				samples = append(samples, r.name+": "+s)
@@ -165,14 +170,27 @@ func violationOf(sc *svc.Scenario, path []string, v svc.V) mc.Violation {
 		Replay: map[string]any{"scenario": sc.Name, "program": sc.Program, "path": path}}
 }
 
-func exploreAll(tier string, budget time.Duration, cap int64, convBin string, onV func(sc *svc.Scenario, path []string, v svc.V)) []row {
+func exploreAll(tier string, budget time.Duration, cap int64, convBin string, onV func(sc *svc.Scenario, path []string, v svc.V), only ...string) []row {
 	scs := scenarios(tier)
+	if len(only) != 0 {
+		var f []svc.Scenario
+		for _, x := range scs {
+			if slices.Contains(only, x.Name) {
+				f = append(f, x)
+			}
+		}
+		scs = f
+	}
 	end := time.Now().Add(budget)
 	var rows []row
 	for i := range scs {
 		sc := &scs[i]
-		// what earlier scenarios did not use is available to the later ones
-		deadline := time.Now().Add(time.Until(end) / time.Duration(len(scs)-i))
+		// twice the fair share of what is left: what earlier scenarios did not use is available to the
+		// later ones, and one slow scenario cannot starve the rest
+		deadline := time.Now().Add(2 * time.Until(end) / time.Duration(len(scs)-i))
+		if deadline.After(end) {
+			deadline = end
+		}
 		st := svc.Explore(sc, convBin, cap, deadline, func(path []string, v svc.V) { onV(sc, path, v) })
 		rows = append(rows, row{sc.Name, st})
 	}
@@ -181,7 +199,7 @@ func exploreAll(tier string, budget time.Duration, cap int64, convBin string, on
 
 // ExploreFor runs the same exploration for a property judged by another driver (C20: what a
 // parked job was handed must not change) and reports that property's violations to rep.
-func ExploreFor(prop, tier string, budget time.Duration, rep *mc.Reporter) (states, transitions int64, complete bool, caps []string) {
+func ExploreFor(prop, tier string, budget time.Duration, rep *mc.Reporter, only ...string) (states, transitions int64, complete bool, caps []string) {
 	var cap int64 = 1500
 	if tier == "thorough" {
 		cap = 60000
@@ -191,7 +209,7 @@ func ExploreFor(prop, tier string, budget time.Duration, rep *mc.Reporter) (stat
 		if v.Prop == prop {
 			rep.Report(violationOf(sc, path, v))
 		}
-	})
+	}, only...)
 	complete = true
 	for _, r := range rows {
 		states += r.st.States
